@@ -365,10 +365,78 @@ pub fn run(ctx: &Ctx) -> Outcome {
     for fs in findings {
         out.absorb(fs);
     }
+    // ---- text-level oracle on a broader corpus: any accepted source, not only the client-able presentations
+    let mut texts: Vec<String> = crate::corpus::accepted_repo_sources().into_iter().map(|(_, s)| s).collect();
+    for c in &cases {
+        texts.push(c.case.rendered.source.clone());
+    }
+    {
+        let sc = Scope { n: 2, t: 2, p: 3, k: 2, symmetry: false };
+        let rhss = all_rhs(sc.n, sc.t, sc.k);
+        let mut idx = 0u64;
+        for unit in work_units(&sc, u128::MAX) {
+            for_each_completion(&sc, &rhss, &unit, &mut |gr| {
+                idx += 1;
+                for v in 0..2u64 {
+                    let mut pres = Presentation::rotating(&gr, idx.wrapping_mul(31).wrapping_add(v * 977));
+                    pres.attribute = if v == 0 { String::new() } else { "#[derive(Debug)]\n#[allow(dead_code)]".into() };
+                    pres.payload = if v == 0 { "()".into() } else { "std::vec::Vec<(u8, crate::X)>".replace("(u8, crate::X)", "std::option::Option<u8>") };
+                    texts.push(Case::new(gr.clone(), pres).rendered.source);
+                }
+            });
+        }
+    }
+    {
+        // the valid files among all files of <= 3 items of the C10 space
+        let items = crate::c10::item_alphabet();
+        let n = items.len();
+        for a in 0..n {
+            for b in 0..n {
+                let two = format!("{}\n{}", items[a], items[b]);
+                if crate::reffront::parse_source(&two).map(|(f, _)| crate::reffront::violations(&f).iter().all(|v| matches!(v, crate::reffront::Violation::NoStartSymbol | crate::reffront::Violation::NoTerminalEnum | crate::reffront::Violation::UndefinedNonterminal(..) | crate::reffront::Violation::UndefinedTerminal(..)))).unwrap_or(false) {
+                    for c in 0..n {
+                        let src = format!("{two}\n{}", items[c]);
+                        if crate::reffront::parse_source(&src).map(|(f, _)| crate::reffront::violations(&f).is_empty()).unwrap_or(false) {
+                            texts.push(src);
+                        }
+                    }
+                }
+            }
+        }
+    }
+    use rayon::prelude::*;
+    let text_results: Vec<(bool, Option<Finding>, Option<String>)> = texts
+        .par_iter()
+        .map(|src| match generate(src) {
+            Gen::Ok(emitted) => match crate::typedefs::compare(src, &emitted) {
+                Ok(None) => (true, None, None),
+                Ok(Some(d)) => (true, Some(Finding::new("typedef_case", json!({"source": src}), format!("the emitted type definitions do not mirror the declarations: {d} — {src:?}"), json!("names, order, pub, Box<T>, payload types, omitted `_` fields, unit-like forms, attributes and parse signature as declared"), json!(d))), None),
+                Err(e) => (true, None, Some(e)),
+            },
+            _ => (false, None, None),
+        })
+        .collect();
+    let mut text_compared = 0u64;
+    let mut text_unreadable = 0u64;
+    let mut unreadable_note = String::new();
+    for (ok, f, e) in text_results {
+        if ok {
+            text_compared += 1;
+        }
+        if let Some(f) = f {
+            out.push(f);
+        }
+        if let Some(e) = e {
+            text_unreadable += 1;
+            unreadable_note = e;
+        }
+    }
+    out.cov("text_level_sources_compared", json!(text_compared));
+    out.cov("text_level_sources_unreadable (oracle not applicable)", json!({"count": text_unreadable, "last_reason": unreadable_note}));
     let distinct: BTreeSet<&String> = cases.iter().map(|c| &c.case.rendered.source).collect();
-    out.cov("evaluations", json!(cases.len()));
+    out.cov("evaluations", json!(cases.len() as u64 + text_compared));
     out.cov("distinct_nontrivial", json!(distinct.len()));
-    out.cov("rule", json!("one evaluation = one grammar presentation whose emitted module plus a generated client module is compiled by rustc and run; distinct = distinct grammar source texts; each is non-trivial: the client constructs and destructures every emitted type in exactly the declared shape"));
+    out.cov("rule", json!("one evaluation = one grammar presentation whose emitted module plus a generated client module is compiled by rustc and run; distinct = distinct grammar source texts; each is non-trivial: the client constructs and destructures every emitted type in exactly the declared shape; in addition a text-level oracle compares the emitted `pub struct|enum` items and the parse signature with the declarations for a broader corpus (repository grammars, G(2,2,3,2) under two presentations, all valid files of <=3 items of the C10 space)"));
     out.cov("exhaustive", json!(true));
     out.cov("scopes", json!(scopes));
     out.cov("clients_failing", json!(failing));
@@ -382,8 +450,16 @@ pub fn run(ctx: &Ctx) -> Outcome {
 }
 
 pub fn replay(kind: &str, case: &Value) -> Option<Vec<Finding>> {
-    if kind != "client_case" {
+    if kind != "client_case" && kind != "typedef_case" {
         return None;
+    }
+    if kind == "typedef_case" {
+        let src = case["source"].as_str()?;
+        let Gen::Ok(emitted) = generate(src) else { return Some(vec![]) };
+        return Some(match crate::typedefs::compare(src, &emitted) {
+            Ok(Some(d)) => vec![Finding::new("typedef_case", case.clone(), format!("the emitted type definitions do not mirror the declarations: {d}"), json!("as declared"), json!(d))],
+            _ => vec![],
+        });
     }
     let c = Case::from_json(case)?;
     let Gen::Ok(text) = generate(&c.rendered.source) else { return Some(vec![]) };
